@@ -110,6 +110,7 @@ type Contracts struct {
 	Guards   map[string]GuardDecl // "pkgpath::global" -> mutex
 	NonNilGlobals map[string]bool // "pkgpath::global": assigned once, in the package initializer, a non-nil value
 	GlobalTypes   map[string]string // optional dynamic type of such a global ("name:Type")
+	WalkComplete  []WalkCompleteDecl
 	OnlyCalledBy  []OnlyCalledByDecl
 	DefaultFrames map[string][]string // property -> locations every uncontracted module callee is scanned to preserve
 	Extensions    []*FuncContract   // `extend func`: clauses merged into the base contract
@@ -124,6 +125,13 @@ type OnlyCalledByDecl struct {
 	Callee  string
 	Callers []string
 	Tags    []string
+}
+
+// WalkCompleteDecl: every method named Method of a type declared in the package must be reachable
+// (call graph) from Root; Except lists methods known not to be (recorded findings keep their name).
+type WalkCompleteDecl struct {
+	Pkg, Root, Method string
+	Tags              []string
 }
 
 type AllMethodsDecl struct {
@@ -145,7 +153,7 @@ func newContracts() *Contracts {
 // their package's (e.g. per-call error objects are not part of the shared document).
 var classOverride = map[string]string{}
 
-var declKeywords = map[string]bool{"onlycalledby": true, "default-frame": true, "extend": true, "allmethods": true, "global": true, "guarded": true, "class": true, "func": true, "iface": true, "fnfield": true, "pred": true, "spec": true, "axiom": true,
+var declKeywords = map[string]bool{"walkcomplete": true, "onlycalledby": true, "default-frame": true, "extend": true, "allmethods": true, "global": true, "guarded": true, "class": true, "func": true, "iface": true, "fnfield": true, "pred": true, "spec": true, "axiom": true,
 	"lemma": true, "ghost": true, "generate": true, "trusted": true}
 var clauseKeywords = map[string]bool{"requires": true, "ensures": true, "modifies": true, "panics_if": true, "loop": true,
 	"tag": true, "pure": true, "records": true, "preserves": true, "defines": true, "assuming": true, "secret": true, "untainted": true, "returns-untainted": true, "fresh": true, "reads": true, "option": true, "nosafety": true}
@@ -455,6 +463,13 @@ func (cs *Contracts) loadContractFile(path, pkgPath string) error {
 				return fail("%v", err)
 			}
 			cs.Ghosts[f[1]] = &GhostDecl{Name: f[1], Pkg: pkgPath, Ty: ty}
+		case "walkcomplete":
+			cur = nil
+			f := strings.Fields(rest)
+			if len(f) != 3 || !strings.HasPrefix(f[0], "@") {
+				return fail("expected: walkcomplete @PROP <root> <method>")
+			}
+			cs.WalkComplete = append(cs.WalkComplete, WalkCompleteDecl{Pkg: pkgPath, Root: f[1], Method: f[2], Tags: []string{f[0][1:]}})
 		case "onlycalledby":
 			cur = nil
 			// onlycalledby @C11 <callee> : f1, f2
